@@ -565,6 +565,29 @@ impl PayToken {
     }
 }
 
+/// Add-only access points for the verification harnesses under /verif (feature `verif-hooks`, off by default).
+#[cfg(feature = "verif-hooks")]
+#[doc(hidden)]
+pub mod verif_hooks {
+    use super::*;
+
+    pub fn merchant_apply(b: MerchantBalance, amt: PaymentAmount) -> Result<MerchantBalance, Error> {
+        b.apply(amt)
+    }
+    pub fn customer_apply(b: CustomerBalance, amt: PaymentAmount) -> Result<CustomerBalance, Error> {
+        b.apply(amt)
+    }
+    pub fn merchant_balance_to_scalar(b: MerchantBalance) -> Scalar {
+        b.to_scalar()
+    }
+    pub fn customer_balance_to_scalar(b: CustomerBalance) -> Scalar {
+        b.to_scalar()
+    }
+    pub fn amount_to_scalar(amt: PaymentAmount) -> Scalar {
+        amt.to_scalar()
+    }
+}
+
 #[cfg(test)]
 mod test {
     use super::*;
